@@ -22,7 +22,8 @@ TECHNIQUE = ('deterministic schedule enumeration: two workloads on two '
              'workload runs k events or to completion inside the j-th event '
              'of the first) plus Hypothesis-generated multi-switch '
              'schedules; differential against solo runs; every public '
-             'operation as first pycel call of a new thread')
+             'operation as first pycel call of a new thread'
+             '; every workload on the importing thread vs a brand-new thread; first calls on a thread warmed by a same-address iterative workbook')
 LEVEL_TEXT = ('Exploration with complete enumeration of the two-switch '
               'schedule family for 9 ordered workload pairs (iterative with '
               'different settings, CSE array with shape changes, plain '
